@@ -337,6 +337,10 @@ static int c18_cmd (char *line)
   if (!inited)
     {
       inited = 1;
+      /* every case starts from a clean tree: sources and saved binaries of earlier cases are removed
+       * (cwd is the mudlib directory of this run; cases run one after the other) */
+      if (system ("rm -rf c18/*/ bin/c18") != 0)
+        vh_out ("cleanup failed");
       verif_line_hook = line_hook;
       verif_error_hook = error_hook;
     }
